@@ -309,6 +309,62 @@ def erase_async(toks, audit, item):
     return out
 
 
+def desugar_for_each_sync(toks, audit, item):
+    """R11: `<recv>.for_each_sync(|PAT| BLOCK)` -> sequential loop over the stream's items:
+    `let mut vfe_iter = (<recv>).into_item_iter(); loop { match vfe_iter.next() { Some(vfe_item) => { let PAT = vfe_item; BLOCK } None => { break; } } }`
+    (as statements of the enclosing block: the call must be an expression statement)
+    (tile_stream.rs: for_each_sync awaits the items one after the other and calls the callback on each)"""
+    hits = find_token_seq(toks, ['.', 'for_each_sync', '('])
+    if not hits:
+        raise ExtractError(f"ANCHOR-LOST {item}: no for_each_sync call")
+    if len(hits) != 1:
+        raise ExtractError(f"{item}: {len(hits)} for_each_sync calls (one supported)")
+    a, e = hits[0]
+    pclose = match_close(toks, e)
+    j = next_sig(toks, e + 1)
+    if toks[j][1] == 'move':
+        j = next_sig(toks, j + 1)
+    if toks[j][1] != '|':
+        raise ExtractError(f"unsupported construct {item}: for_each_sync argument is not a closure literal")
+    k2 = j + 1
+    d = 0
+    while k2 < pclose:
+        kk, tt = toks[k2]
+        if kk == 'p' and tt in OPEN:
+            d += 1
+        elif kk == 'p' and tt in CLOSE:
+            d -= 1
+        elif kk == 'p' and tt == '|' and d == 0:
+            break
+        k2 += 1
+    pat = text(toks[j + 1:k2]).strip()
+    bo = next_sig(toks, k2 + 1)
+    if toks[bo][1] != '{' or match_close(toks, bo) != prev_sig(toks, pclose - 1):
+        raise ExtractError(f"unsupported construct {item}: for_each_sync callback is not `|pat| {{ block }}`")
+    block = text(toks[bo:match_close(toks, bo) + 1])
+    # receiver: back to the start of the expression statement
+    r0 = a - 1
+    d = 0
+    while r0 >= 0:
+        kk, tt = toks[r0]
+        if kk == 'p' and tt == '}' and d == 0:
+            break       # the end of a preceding block statement
+        if kk == 'p' and tt in CLOSE:
+            d += 1
+        elif kk == 'p' and tt in OPEN:
+            if d == 0:
+                break
+            d -= 1
+        elif kk == 'p' and tt == ';' and d == 0:
+            break
+        r0 -= 1
+    recv = text(toks[r0 + 1:a]).strip()
+    repl = ('let mut vfe_iter = (' + recv + ').into_item_iter();\n\t\t\t\tloop {\n\t\t\t\t\tmatch vfe_iter.next() { Some(vfe_item) => { let ' + pat
+            + ' = vfe_item; ' + block + ' } None => { break; } }\n\t\t\t\t}')
+    audit.add('R11', 'for_each_sync(callback) -> sequential loop over the items of the stream', '', item)
+    return toks[:r0 + 1] + [('ws', '\n\t\t\t')] + lex(repl) + toks[pclose + 1:]
+
+
 def _next_n_sig(toks, i, n):
     res = []
     j = i
@@ -763,6 +819,59 @@ def extract_item(kind, kv, sections, unit_rewrites, extra_drop, audit, verus):
         if body_open is None:
             raise ExtractError(f"ANCHOR-LOST fn {item}: no body")
         raw = toks[b:body_close + 1]
+    elif kind == 'closure':
+        # R10: a closure literal inside function `name` is lifted to a function. The closure head (kv['head']) is replaced by the
+        # declared signature kv['sig']; statements of the enclosing function named by kv['pre'] (anchors separated by `|`) are
+        # copied in front of the closure body; everything else of the enclosing function is dropped (and listed in the audit).
+        hits = find_fn(toks, start, end, name, None if kv.get('anydepth') else depth0)
+        if len(hits) != 1:
+            raise ExtractError(f"ANCHOR-LOST fn {item}: {len(hits)} matches")
+        fb, fnkw, f_open, f_close = hits[0]
+        if f_open is None:
+            raise ExtractError(f"ANCHOR-LOST fn {item}: no body")
+        head = kv['head']
+        ch = find_token_seq(toks, sig_tokens(lex(head)), f_open, f_close + 1)
+        if len(ch) != 1:
+            raise ExtractError(f"ANCHOR-LOST closure {item}: head {head!r} has {len(ch)} matches")
+        ca, ce = ch[0]
+        cj = next_sig(toks, ce + 1)
+        if toks[cj][1] != '{':
+            raise ExtractError(f"ANCHOR-LOST closure {item}: head {head!r} is not followed by a block")
+        cclose = match_close(toks, cj)
+        pre_txt = ''
+        for anchor in [a for a in kv.get('pre', '').split('|') if a.strip()]:
+            ph = find_token_seq(toks, sig_tokens(lex(anchor)), f_open + 1, ca)
+            if len(ph) != 1:
+                raise ExtractError(f"ANCHOR-LOST closure {item}: pre statement {anchor!r} has {len(ph)} matches")
+            pa, pe = ph[0]
+            q = pe
+            d = 0
+            while q < ca:
+                kk, tt = toks[q]
+                if kk == 'p' and tt in OPEN:
+                    d += 1
+                elif kk == 'p' and tt in CLOSE:
+                    d -= 1
+                elif kk == 'p' and tt == ';' and d == 0:
+                    break
+                q += 1
+            if q >= ca:
+                raise ExtractError(f"ANCHOR-LOST closure {item}: pre statement {anchor!r} has no end")
+            pre_txt += '\t\t' + text(toks[pa:q + 1]) + '\n'
+        # parameter names of the closure head must appear in the declared signature
+        hs = sig_tokens(lex(head))
+        if '|' in hs:
+            inner = hs[hs.index('|') + 1:len(hs) - 1 - hs[::-1].index('|')]
+            for nm in inner:
+                if re.match(r'^[A-Za-z_]\w*$', nm) and nm not in ('mut', 'ref') and nm not in sig_tokens(lex(kv['sig'])):
+                    raise ExtractError(f"{item}: closure parameter {nm} missing from declared signature")
+        raw = lex(kv['sig'] + ' {\n' + pre_txt + '\t\t' + text(toks[cj:cclose + 1]) + '\n\t}')
+        b = ca
+        body_close = cclose
+        audit.add('R10', f'closure `{head}` of fn {name} lifted to `{kv["sig"]}`; enclosing statements other than [{kv.get("pre", "")}] dropped', '', item)
+        mname = re.search(r'fn\s+([A-Za-z_]\w*)', kv['sig'])
+        name = mname.group(1)
+        kind = 'fn'
     elif kind in ('struct', 'enum', 'const', 'type'):
         hits = find_typedef(toks, start, end, kind, name, depth0)
         if len(hits) != 1:
@@ -781,6 +890,8 @@ def extract_item(kind, kv, sections, unit_rewrites, extra_drop, audit, verus):
     t = lex(text(t))
     t = erase_async(t, audit, item)
     t = lex(text(t))
+    if kv.get('foreach'):
+        t = lex(text(desugar_for_each_sync(t, audit, item)))
     t = rewrite_macros(t, audit, item, extra_drop)
     t = lex(text(t))
     t = rewrite_result(t, audit, item)
